@@ -182,6 +182,8 @@ func startGaps(c *hk.Ctx) func() {
 		gaps = append(gaps, 35*time.Second, 65*time.Second)
 	}
 	var wg sync.WaitGroup
+	wg.Add(1)
+	go func() { defer wg.Done(); expiryHistory(c) }()
 	for _, kind := range []string{"streamable", "legacy", "stdio"} {
 		for _, gap := range gaps {
 			if kind == "stdio" && gap > 11*time.Second {
